@@ -287,7 +287,7 @@ def tables_jobs(prop, ctx, quick=("chk", "ship"), shards_per=8, thorough_extra=(
         if "miri" in thorough_extra:
             jobs += miri_jobs(prop, "mon-tables", ctx, miri_shards)
         if vg:
-            d = ctx["build"]("ship", "mon-tables")
+            d = ctx["build"]("vgbin", "mon-tables")
             for i in range(4):
                 jobs.append(bin_job(prop, "mon-tables", "vg", d, ctx, i, 4, extra=["--small"],
                                     wrapper=["valgrind", "--quiet", "--error-exitcode=97", "--tool=memcheck"]))
@@ -411,8 +411,8 @@ def plugin_jobs(ctx):
             jobs.append(bin_job("C15", "mon-plugin", fl, d, ctx, idx, total, extra=["--plugin", so]))
             idx += 1
     if ctx["tier"] == "thorough":
-        d = ctx["build"]("ship", "mon-plugin")
-        so = ctx["build_plugin"]("ship")
+        d = ctx["build"]("vgbin", "mon-plugin")
+        so = ctx["build_plugin"]("vgbin")
         for i in range(4):
             jobs.append(bin_job("C15", "mon-plugin", "vg", d, ctx, i, 4, extra=["--plugin", so, "--small"],
                                 wrapper=["valgrind", "--quiet", "--error-exitcode=97", "--tool=memcheck"]))
@@ -514,7 +514,7 @@ def c07_jobs(ctx):
         d = ctx["build"]("asan", "mon-core")
         for i in range(8):
             jobs.append(bin_job("C07", "mon-core", "asan", d, ctx, i, 8, env=ASAN_ENV))
-        d = ctx["build"]("ship", "mon-core")
+        d = ctx["build"]("vgbin", "mon-core")
         for i in range(4):
             jobs.append(bin_job("C07", "mon-core", "vg", d, ctx, i, 4, extra=["--small"],
                                 wrapper=["valgrind", "--quiet", "--error-exitcode=97", "--tool=memcheck"]))
